@@ -876,6 +876,9 @@ def run(ctx, rep):
     from . import c07
 
     c07.rule_recheck(ctx, rep)
+    from . import c05
+
+    c05.rule_retype(ctx, rep)  # the header-erasing conversions (and every other re-typing of a block) keep header and elements where they were: equal layouts on the shape matrix
 
 
 def main(argv):
